@@ -205,7 +205,7 @@ def exCredNet : C01.Cred := { id := some "did:nuts:B#1", issuer := "did:nuts:B" 
 def exCredSL : C01.Cred :=
   { id := some "did:a#1", issuer := "did:a",
     statuses := some [{ id := "x", typ := "Other" },
-                      { id := "s", typ := C01.statusListEntryType, purpose := "revocation", index := some 0,
+                      { id := "s", typ := C01.statusListEntryType, purpose := "revocation", indexText := "0",
                         listCred := "https://n0/statuslist/did:a/1" }] }
 
 example : RevokedIn exGlue C11.Props.exEnv C11.Props.exKeys C11.Props.exWorld false exCredNet
@@ -251,10 +251,10 @@ example : RevokedIn exGlue C11.Props.exEnv C11.Props.exK C11.Props.exWorld true 
 
 /-- both verdicts on C11's example: revoked on node 0 after its history, not revoked in the initial world (list not fetchable) -/
 example : C01.statusVerdict (revEnv exGlue C11.Props.exEnv false (C11.run C11.Props.exEnv C11.Props.exK C11.Props.exWorld C11.Props.exHistory) C01.Props.exE)
-    { exCredSL with statuses := some [{ id := "s", typ := C01.statusListEntryType, purpose := "revocation", index := some 0,
+    { exCredSL with statuses := some [{ id := "s", typ := C01.statusListEntryType, purpose := "revocation", indexText := "0",
                                          listCred := "https://n0/statuslist/did:a/1" }] } = .revoked := by decide
 example : C01.statusVerdict (revEnv exGlue C11.Props.exEnv false C11.Props.exWorld C01.Props.exE)
-    { exCredSL with statuses := some [{ id := "s", typ := C01.statusListEntryType, purpose := "revocation", index := some 0,
+    { exCredSL with statuses := some [{ id := "s", typ := C01.statusListEntryType, purpose := "revocation", indexText := "0",
                                          listCred := "https://n0/statuslist/did:a/1" }] } = .softErr := by decide
 
 /-! ### the seam C01 → C02 on the signer (a FINDING about the models)
